@@ -53,7 +53,7 @@ def strategy(tier):
 
 def run_case(case, cx):
     m, m2, cfg = case["model"], case["mutant"], case["cfg"]
-    d, b1, b2 = pairs.build_pair(cx, m, m2, cfg, nodebug_tus=tuple(case["nodebug"]))
+    d, b1, b2 = pairs.build_pair(cx, m, m2, cfg, nodebug_tus=tuple(case["nodebug"]), sonames=case.get("sonames"))
     sp = d + "/s.suppr"
     open(sp, "w").write(case["suppr"])
     base = pairs.abidiff(cx, b1, b2, case["mode"])
